@@ -669,8 +669,11 @@ Fixpoint csv_all {V : Type} (cats : list (string * catval V)) : option (list (cs
 
 Definition opt_eqb (a b : option string) : bool :=
   match a, b with None, None => true | Some x, Some y => String.eqb x y | _, _ => false end.
+(* csv text cannot tell a missing year (field rows) from an empty one (a year cell that parsed to None) *)
+Definition year_text (y : option string) : string := match y with Some x => x | None => "" end.
 Definition csvrow_eqb (a b : csvrow string) : bool :=
-  String.eqb (c_cat _ a) (c_cat _ b) && String.eqb (c_field _ a) (c_field _ b) && opt_eqb (c_year _ a) (c_year _ b)
+  String.eqb (c_cat _ a) (c_cat _ b) && String.eqb (c_field _ a) (c_field _ b)
+  && String.eqb (year_text (c_year _ a)) (year_text (c_year _ b))
   && String.eqb (c_val _ a) (c_val _ b) && String.eqb (c_unit _ a) (c_unit _ b).
 (* the rows the model derives from the result equal the rows read back from as_csv() *)
 Definition agree_csv (m : option (list (csvrow string))) (i : option (list (csvrow string))) : bool :=
